@@ -460,3 +460,76 @@ def check_c16(tier, seed, replay=None, selftest=False):
                       "length / window / flags}; TLC validates return code, absence of side effects and of any dereference against "
                       "ApiGate!OutcomeOkPlain; legacy/isal_ agreement is carried by the functional checks C01-C10, which drive both spellings "
                       "against the same deterministic spec", {"C16"})
+
+
+# ------------------------------------------------------------------------------------------ C17 self-test protocol
+import gen_self
+SELF_SRCS = ["main.c", "core.c", "vcall.S", "drv_self.c"]
+SELF_WRAPS = ["asm_check_self_tests_status", "asm_set_self_tests_status", "_aes_self_tests", "_sha_self_tests"]
+EXPECTED_SHAPE = {"asm_check_self_tests_status": "LXCL", "asm_set_self_tests_status": "S"}
+
+
+def tlc_selftest_schedules(n, num, depth, seed):
+    """spec -> code: behaviours of SelfTest drawn by TLC's simulator, printed as JSON from an always-true invariant"""
+    cfg = os.path.join(verif.SPEC, "SelfTestSim_%d.cfg" % n)
+    ts = ", ".join("t%d" % i for i in range(1, n + 1))
+    open(cfg, "w").write("SPECIFICATION HSpec\nCONSTANTS\n  Threads = {%s}\n  Calls = 2\n  Outcomes = {\"pass\", \"fail\"}\n"
+                         "INVARIANT DumpAtEnd\nCHECK_DEADLOCK FALSE\n" % ts)
+    rc, out, dt = verif.tlc("SelfTestSim", cfg="SelfTestSim_%d.cfg" % n, workers=4, timeout=300,
+                            simulate="num=%d" % num, extra=["-depth", str(depth), "-seed", str(seed)])
+    cmds = []
+    for line in out.splitlines():
+        if line.startswith("\"BEH "):
+            try:
+                rec = json.loads(json.loads(line)[4:])
+            except Exception:
+                continue
+            hist = [(int(h[0][1:]) - 1, h[1], h[2]) for h in rec["h"]]
+            cmds.append(gen_self.from_tlc_history(hist, n, 2, rec["o"]))
+    return cmds
+
+
+@reg("C17")
+def check_c17(tier, seed, replay=None, selftest=False):
+    chk = verif.Check("C17", "model_checking", tier, seed)
+    props = {"C17"}
+    exe = build.build_driver("self", SELF_SRCS, variant="fips", wraps=SELF_WRAPS)
+    mapcmd, shapes = gen_self.instr_map(exe)
+    if shapes != EXPECTED_SHAPE:
+        chk.drift.append("status function accesses the shared word in a different shape than SelfTest models: %s" % json.dumps(shapes))
+    if replay:
+        lines = [x for x in open(replay).read().splitlines() if x and not x.startswith("#")]
+        outs = run_jobs([{"name": "replay", "behaviours": [[mapcmd] + [x for x in lines if not x.startswith("selfmap")]]}], exe, "TraceSelfTest")
+        collect(chk, outs, props, marker="SReset")
+        chk.cov.update({"states": 1, "transitions": 1, "traces_validated_against_impl": 1, "samples": [replay]})
+        return chk.finish()
+    model_check(chk, [("SelfTest", "SelfTest_2.cfg", 8, 600), ("SelfTest", "SelfTest_3.cfg", 8, 600)] +
+                ([("SelfTest", "SelfTest_4.cfg", 8, 900)] if tier != "quick" else []))
+    rng = random.Random(seed * 977 + 17)
+    beh = gen_self.systematic(2) + gen_self.randoms(rng, 150 if tier == "quick" else 3000)
+    if tier != "quick":
+        beh += gen_self.systematic(3) + gen_self.two_preemptions()
+    ntlc = 0
+    for n in (2, 3):
+        cmds = tlc_selftest_schedules(n, 40 if tier == "quick" else 600, 60, seed)
+        ntlc += len(cmds)
+        beh += cmds
+    chk.cov["tlc_generated_behaviours_replayed"] = ntlc
+    nj = 14
+    jobs = [{"name": "self-%d" % i, "behaviours": [[mapcmd]] + [[b] for b in beh[i::nj]], "driver": "self", "prelude": mapcmd + "\n"}
+            for i in range(nj)]
+    outs = run_jobs(jobs, exe, "TraceSelfTest")
+    nb, ne = collect(chk, outs, props | {"SPEC"}, marker="Mark")
+    for o in outs:
+        for v in o["result"]["viol"]:
+            if v["p"] == "DRIFT":
+                chk.drift.append("%s %s" % (v["what"], json.dumps(v["info"])[:160]))
+    _finish_traces(chk, jobs, outs, nb, ne,
+                   "one behaviour = N (2..4) threads x 1..2 calls of isal_self_tests()/isal_aes_keyexp_128() executed under a schedule that "
+                   "says which thread performs its next access to the status word (instruction-granular control through the trap flag, no "
+                   "source hook); schedules: every single-preemption point of thread 0 (x 4 injected outcomes), random and bursty schedules, "
+                   "and behaviours drawn by TLC's simulator from SelfTest (spec -> code); thorough adds 3-thread and two-preemption sweeps")
+    chk.cov["distinct_nontrivial"] = len(set(beh))
+    chk.assumptions += ["one thread runs at a time (sequentially consistent interleavings; x86-TSO reorderings of the plain store are not explored)",
+                        "self-test outcomes are injected through link seams on _aes_self_tests/_sha_self_tests"]
+    return chk.finish()
